@@ -21,6 +21,11 @@ FUZZ = {
     'snappy_decompress': ('replay/fz/snappy_decompress.c', ['src/compression/snappy.c'], 48, 20),
 }
 
+DIRECT = {
+    # name: (native dual-use source, [extra repo sources], {input name: trace lhs})
+    'bloom_block_index': ('replay/direct/bloom_block_index.c', ['src/util/xxhash.c'], {'hash': 'hash', 'z': 'z'}),
+}
+
 CFLAGS = ['-g', '-O1', '-fno-omit-frame-pointer', '-fsanitize=address,undefined',
           '-fno-sanitize-recover=undefined', '-DCARQUET_VERIF_REPLAY=1']
 
@@ -49,7 +54,54 @@ def trace_bytes(trace):
 def run(name, job, R, primary, trace, REPO, ROOT):
     if name in FUZZ:
         return run_fuzz(name, job, primary, trace, REPO, ROOT)
+    if name in DIRECT:
+        return run_direct(name, job, primary, trace, REPO, ROOT)
     raise KeyError(name)
+
+
+def build_direct(name, REPO, ROOT, out):
+    h, srcs, _v = DIRECT[name]
+    cmd = ['clang'] + CFLAGS + ['-I' + os.path.join(REPO, 'include'), '-I' + os.path.join(REPO, 'src'), '-I' + REPO,
+                                '-I' + os.path.join(ROOT, 'replay'), '-I' + ROOT, os.path.join(ROOT, h)] + \
+          [os.path.join(REPO, s) for s in srcs] + ['-lm', '-lz', '-lzstd', '-o', out]
+    p = subprocess.run(cmd, stdout=subprocess.PIPE, stderr=subprocess.STDOUT, timeout=300)
+    return p.returncode == 0, p.stdout.decode(errors='replace')[-2000:], ' '.join(cmd)
+
+
+def num(v):
+    if v is None:
+        return None
+    m = re.match(r'^\s*(-?\d+)', str(v))
+    return m.group(1) if m else None
+
+
+def run_direct(name, job, primary, trace, REPO, ROOT, inputs=None):
+    h, srcs, vmap = DIRECT[name]
+    td = tempfile.mkdtemp(prefix='cqv_rp_')
+    try:
+        if inputs is None:
+            inputs = {}
+            for s in trace or []:
+                for k, lhs in vmap.items():
+                    if s.get('lhs') == lhs and k not in inputs and num(s.get('value')) is not None \
+                            and s.get('fn') == job['entry']:
+                        inputs[k] = num(s.get('value'))
+            missing = [k for k in vmap if k not in inputs]
+            if missing:
+                return dict(reproduced=False, kind='direct', error='trace has no value for %s' % missing)
+        exe = os.path.join(td, 'rp')
+        ok, out, cmd = build_direct(name, REPO, ROOT, exe)
+        if not ok:
+            return dict(reproduced=False, error='native build failed: ' + out)
+        inp = os.path.join(td, 'input.txt')
+        open(inp, 'w').write(''.join('%s=%s\n' % kv for kv in inputs.items()))
+        p = subprocess.run([exe, inp], stdout=subprocess.PIPE, stderr=subprocess.STDOUT, timeout=120)
+        log = p.stdout.decode(errors='replace')
+        return dict(reproduced=p.returncode != 0, kind='direct', replayer=name, harness=h,
+                    source="verifier's counterexample values run on the real /repo sources (ASan/UBSan)",
+                    inputs=inputs, exit_status=p.returncode, report=log.strip().split('\n')[-6:])
+    finally:
+        shutil.rmtree(td, ignore_errors=True)
 
 
 def run_fuzz(name, job, primary, trace, REPO, ROOT):
@@ -94,6 +146,12 @@ def rerun(d, REPO, ROOT):
         print('no native input stored for this violation (no-failing-input-found)')
         return 0
     name = nr['replayer']
+    if name in DIRECT:
+        r = run_direct(name, dict(entry=None, props=[d['property']], name=d['job']), None, None, REPO, ROOT,
+                       inputs=nr['inputs'])
+        print('\n'.join(r.get('report', [])))
+        print('native replay exit status: %s (%s)' % (r.get('exit_status'), 'FAILS' if r.get('reproduced') else 'passes'))
+        return 1 if r.get('reproduced') else 0
     td = tempfile.mkdtemp(prefix='cqv_rp_')
     try:
         exe = os.path.join(td, 'fz')
